@@ -58,6 +58,7 @@ def run(tier, seed, replay=None):
     nexp = len(cases)
     ck.extra["tlc_exported_matrices"] = nexp
     cases += drv.gen_random(rng, 1200 if tier == "quick" else 12000)
+    cases += drv.DEGENERATE
     from vlib import corpus
     rc = corpus.dlx_cases(corpus.capture(["tests/solvors/test_dlx.py", "tests/examples/test_puzzles.py"] if tier == "thorough" else ["tests/solvors/test_dlx.py"]), drv.CALLS)
     ck.extra["inputs_recorded_from_repository_tests"] = len(rc)
